@@ -1,1 +1,4 @@
 pub mod c01;
+pub mod c04;
+pub mod c09;
+pub mod c16;
